@@ -188,7 +188,29 @@ def check_misc(_):
     return out
 
 
-CHECKERS = {'literal': check_literal, 'whitespace': check_whitespace, 'slots': check_slots, 'misc': check_misc}
+SNIPS = [('1', 1), ('{3;4}', [3, 4]), ('{3,4}', [3, 4]), ('{5}', [5]), ('"t"', 't'), ('F(7;8)', [7, 8]), ('{1,2;3,4}', [[1, 2], [3, 4]]), ('x', 5),
+         ('F({1,2},9)', [[1, 2], 9]), ('{1\\2}', [1, 2])]
+
+
+def slotval_formulas(idx):
+    return ['F(' + sep.join(SNIPS[i][0] for i in idx) + ')' for sep in (',', ';', '\\')]
+
+
+def check_slotvals(idx):
+    """argument slots holding arrays, texts, calls and variables (not only numbers): one argument per slot, in order, whatever
+    the separator"""
+    out = []
+    want = [SNIPS[i][1] for i in idx]
+    res = [(f, pv(f, x=5)) for f in slotval_formulas(idx)]
+    if not (res[0][1] == res[1][1] == res[2][1]):
+        out.append(('separators disagree on %s' % res[0][0], None, res[0], res[1:]))
+    for f, r in res:
+        if r != want:
+            out.append((f, None, want, r))
+    return out
+
+
+CHECKERS = {'literal': check_literal, 'whitespace': check_whitespace, 'slots': check_slots, 'misc': check_misc, 'slotvals': check_slotvals}
 
 
 def check_case(case):
@@ -255,9 +277,17 @@ def explore(ctx):
         if not body.endswith('\\'):
             cases.append(host_case('"%s"' % body.replace('"', '')))
             cases.append(host_case("'%s'" % body.replace("'", '')))
+    nsn = len(SNIPS)
+    svals = [(i,) for i in range(nsn)] + [(i, j) for i in range(nsn) for j in range(nsn)] + \
+        [(i, j, k) for i in range(nsn) for j in range(nsn) for k in range(nsn) if big or (i + 3 * j + 7 * k) % 4 == 0]
+    for _ in range(2000 if big else 150):
+        svals.append(tuple(rng.randrange(nsn) for _ in range(rng.randint(4, 6))))
+    for idx in svals:
+        for f in slotval_formulas(idx):
+            cases.append(host_case(f, vars=[('x', 5)]))
     compare(R, ctx, 'parse', cases, interp.enc_case, _impl, key=lambda c: c['formula'], eq=interp.eq_case)
     # ---- oracle
-    work = [('slots', pat) for pat in pats] + [('misc', 0)]
+    work = [('slots', pat) for pat in pats] + [('misc', 0)] + [('slotvals', idx) for idx in svals]
     for i, toks in enumerate(FORMULAS):
         for k in range(10 if big else 3):
             work.append(('whitespace', (tuple(toks), ctx.seed * 1000 + i * 17 + k)))
@@ -292,6 +322,8 @@ def search(ctx, proof, res):
     rng = ctx.rng
     pats = [p for n in range(1, 7) for p in itertools.product([True, False], repeat=n)]
     work = [('slots', pat) for pat in pats] + [('misc', 0)]
+    nsn = len(SNIPS)
+    work += [('slotvals', (i, j, k)) for i in range(nsn) for j in range(nsn) for k in range(nsn)] + [('slotvals', (i, j)) for i in range(nsn) for j in range(nsn)]
     for i, toks in enumerate(FORMULAS):
         for k in range(30):
             work.append(('whitespace', (tuple(toks), 7919 * i + k)))
